@@ -113,6 +113,12 @@ fn cli_run(dir: &std::path::Path, sub: &str, word: &str, version: (u8, u8, u8)) 
 }
 
 fn cli_run_args(dir: &std::path::Path, args: &[&str], version: (u8, u8, u8)) -> Option<Vec<u8>> {
+    cli_run_ident(dir, args, version, "stub", "S")
+}
+
+/// … against a daemon whose identity record carries this model and serial number (any identity of a compatible daemon is
+/// a compatible daemon)
+fn cli_run_ident(dir: &std::path::Path, args: &[&str], version: (u8, u8, u8), model: &str, serial: &str) -> Option<Vec<u8>> {
     let sock = dir.join("d.sock");
     let _ = std::fs::remove_file(&sock);
     let listener = UnixListener::bind(&sock).ok()?;
@@ -133,9 +139,14 @@ fn cli_run_args(dir: &std::path::Path, args: &[&str], version: (u8, u8, u8)) -> 
     let hdr = read_exact_timeout(&mut s, 10)?;
     let len = ((hdr[5] as usize) << 8) | hdr[6] as usize;
     let _name = read_exact_timeout(&mut s, len)?;
-    let inst = glonax::core::Instance::new("d55bcd75-8d30-49af-ac18-ee7cbce7822f", "stub", glonax::core::MachineType::Excavator, version, "S");
-    use glonax::protocol::Packetize;
-    s.write_all(&sess::frame(0x15, &inst.to_bytes())).ok()?;
+    // the identity record written out by hand: id(16) type(1) version(3) model-length(2) model serial-length(2) serial
+    let mut inst = vec![0xD5u8; 16];
+    inst.extend_from_slice(&[1, version.0, version.1, version.2]);
+    inst.extend_from_slice(&(model.len() as u16).to_be_bytes());
+    inst.extend_from_slice(model.as_bytes());
+    inst.extend_from_slice(&(serial.len() as u16).to_be_bytes());
+    inst.extend_from_slice(serial.as_bytes());
+    s.write_all(&sess::frame(0x15, &inst)).ok()?;
     let mut rest = vec![];
     let _ = s.read_to_end(&mut rest);
     let _ = child.wait();
@@ -336,6 +347,20 @@ pub fn run(out: &mut Out, tier: &str, rng: &mut Rng) {
                         out.count("cli plain sub-command");
                         out.case(&format!("cli2 {} {} {}", a[0], if a.len() == 2 { a[1].clone() } else { "-".into() }, compat as u8), &hex(&bytes), true);
                     }
+                }
+            }
+        }
+    }
+    // ---- whatever the compatible daemon's identity looks like (empty / long / multi-byte model and serial number), the command
+    // is sent
+    if !missing {
+        let long = "x".repeat(300);
+        for (model, serial) in [("", ""), ("", "S"), ("M", ""), ("LE240", "0.00000.0.00000"), (long.as_str(), "é"), ("挖掘机", long.as_str())] {
+            match cli_run_ident(&dir, &["horn", "--", "on"], (3, 5, 0), model, serial) {
+                None => out.note("glonaxctl identity run could not be set up".into()),
+                Some(bytes) => {
+                    out.count("cli against daemons of varying identity");
+                    out.case(&format!("cli horn {} 1", hex("on".as_bytes())), &hex(&bytes), true);
                 }
             }
         }
